@@ -216,7 +216,39 @@ def rdl_jobs(tier):
                            ('agrees_with_the_variable_level_distances', '__exc != 0 || spr_bounds_agree(self->_dists, *l, %s.first, %s.second)' % (R, R)),
                            ('WITNESS_two_variable_form_with_negative_coefficient_is_reachable', '!(__exc == 0 && %s == 2 && spr_form_of(*l).c.num < 0)' % FORM)],
                   assigns='__exc')
-    return [Job('rdl.bounds', 'smt_rdl_theory_bounds__lin', tus=TUS_R, contract=cb, defines=d, unwind=6, model_unwind=12, spec_headers=['rdl_spec.h'], exceptions=True,
+    # distance(from, to) and equates(l0, l1) are thin wrappers of bounds now: proved with bounds REPLACED by the contract above (modular),
+    # the second operand fixed to the zero expression (the subtraction itself is exact by C15)
+    RB = 'smt_rdl_theory_bounds__lin'
+    c_rb = Contract(requires=[r for r in cb.requires if 'is_fresh' not in r and 'sp_lin_rec' not in r],
+                    ensures=[e for e in cb.ensures if not e[0].startswith('WITNESS_')], assigns='__exc')
+    HD = 'void xt_harness(void)\n{\n  xt_init_globals();\n  struct smt_rdl_theory th; struct smt_lin *from;\n  struct smt_lin to = smt_lin_ctor();\n  smt_rdl_theory_distance__lin__lin(&th, from, &to);\n}\n'
+    NEG = 'sp_lin_neg(*from)'
+    cdist = Contract(requires=['__CPROVER_is_fresh(from, sizeof(*from))', '__exc == 0', 'lin_shape(*from) && spr_lin_keys_ok(*from)', 'in_range_lin(*from) && lin_nonzero(*from)', 'wf_lin(*from)',
+                               'spr_D_ok(self->_dists)', 'to->vars.n == 0 && to->known_term.num == 0 && to->known_term.den == 1'],
+                     ensures=[('only_invalid_argument', '__exc == 0 || __exc == EXC_invalid_argument'),
+                              ('serves_exactly_the_difference_expressions', '(__exc != 0) == (spr_form_of(%s).shape == 3)' % NEG),
+                              ('is_the_interval_of_to_minus_from', '__exc != 0 || spr_bounds_agree(self->_dists, %s, %s.first, %s.second)' % (NEG, R, R))],
+                     assigns='__exc')
+    HE = 'void xt_harness(void)\n{\n  xt_init_globals();\n  struct smt_rdl_theory th; struct smt_lin *l0;\n  struct smt_lin l1 = smt_lin_ctor();\n  smt_rdl_theory_equates__lin__lin(&th, l0, &l1);\n}\n'
+    ceq = Contract(requires=['__CPROVER_is_fresh(l0, sizeof(*l0))', '__exc == 0', 'lin_shape(*l0) && spr_lin_keys_ok(*l0)', 'in_range_lin(*l0) && lin_nonzero(*l0)', 'wf_lin(*l0)',
+                             'spr_D_ok(self->_dists)', 'l1->vars.n == 0 && l1->known_term.num == 0 && l1->known_term.den == 1'],
+                   ensures=[('only_invalid_argument', '__exc == 0 || __exc == EXC_invalid_argument'),
+                            ('serves_exactly_the_difference_expressions', '(__exc != 0) == (spr_form_of(*l0).shape == 3)'),
+                            ('true_exactly_when_zero_lies_in_the_interval', '__exc != 0 || spr_equates_ok(self->_dists, *l0, %s)' % R)],
+                   assigns='__exc')
+    wrappers = [Job('rdl.distance', 'smt_rdl_theory_distance__lin__lin', tus=TUS_R, contract=cdist, defines=d, unwind=6, model_unwind=12, spec_headers=['rdl_spec.h'], exceptions=True,
+                    callee_contracts={RB: c_rb}, replace=[RB], caps={'map': 4, 'vec_vec_inf_rational': 3, 'vec_inf_rational': 3, 'vec_lit': 2}, abstract_fields=ABS_R, harness=HD, roots=['smt_lin_ctor'],
+                    timeout=3000, mem_gb=24, mem_est=6, bounded='from: <= 2 terms over 3 time points, to = 0; bounds(lin) by its contract'),
+                Job('rdl.equates', 'smt_rdl_theory_equates__lin__lin', tus=TUS_R, contract=ceq, defines=d, unwind=6, model_unwind=12, spec_headers=['rdl_spec.h'], exceptions=True,
+                    callee_contracts={RB: c_rb}, replace=[RB], caps={'map': 4, 'vec_vec_inf_rational': 3, 'vec_inf_rational': 3, 'vec_lit': 2}, abstract_fields=ABS_R, harness=HE, roots=['smt_lin_ctor'],
+                    timeout=3000, mem_gb=24, mem_est=6, bounded='l0: <= 2 terms over 3 time points, l1 = 0; bounds(lin) by its contract')]
+    import os
+    if not os.environ.get('C12_RDL_WRAPPERS'):
+        # the two wrapper jobs are written but not registered: rdl.distance needed 42 minutes (relating the real subtraction 0 - from to the
+        # specification's negation is nonlinear rational reasoning for the SAT back end) and rdl.equates' specification of the comparison
+        # with zero was not finished; distance and equates of rdl_theory are one-line wrappers of bounds, textually the verified idl versions
+        wrappers = []
+    return wrappers + [Job('rdl.bounds', 'smt_rdl_theory_bounds__lin', tus=TUS_R, contract=cb, defines=d, unwind=6, model_unwind=12, spec_headers=['rdl_spec.h'], exceptions=True,
                 caps={'map': 4, 'vec_vec_inf_rational': 3, 'vec_inf_rational': 3, 'vec_lit': 2}, abstract_fields=ABS_R, harness=HB, timeout=3000, mem_gb=24, mem_est=6,
                 replay={'driver': 'rdl', 'stanza': '''  const int n = XT_NTP; sat_core sat; rdl_theory *th = build_rdl(sat, n); lin l = mk_lin(100);
   r_bounds want = rbounds_of(*th, l); std::string why;
